@@ -3542,7 +3542,18 @@ impl GlobalInferenceCtx<'_> {
                                     });
                                 }
                                 None => {
-                                    if dest_ty.is_weak_replaceable_by(&value_ty) {
+                                    // only a destination that is still weakly typed takes on the
+                                    // type of what gets assigned to it.
+                                    // a `[]i32` doesn't turn into a `[]Meters` like that
+                                    let dest_is_weak = dest_ty.might_be_weak()
+                                        || matches!(
+                                            dest_ty.as_ref(),
+                                            Ty::AnonArray { .. }
+                                                | Ty::AnonStruct { .. }
+                                                | Ty::NaivePolymorphicFunction { .. }
+                                        );
+
+                                    if dest_is_weak && dest_ty.is_weak_replaceable_by(&value_ty) {
                                         self.replace_weak_tys(assign_body.dest, value_ty);
                                     } else {
                                         self.expect_match(
